@@ -120,6 +120,34 @@ def run_c11(ck, ctx):
 
 
 # =============================================================== C12
+def overpad_then_nonihw(ck, R, pre_variants):
+    # ... and "judged from the initial state" also when the packet after the over-padded one does NOT start with an IHW: whatever
+    # its first word is (a data word, a TDH, a TDT), it is examined as the IHW the initial state expects and reported there
+    firsts = {'data': G.dw(0x20, b'\x05' * 9), 'tdh': G.tdh(trig=3, orbit=5), 'tdt': G.tdt(done=1), 'data_ob': G.dw(0x43, b'\x06' * 9)}
+    for vname, pre in pre_variants.items():
+        for fname, fw in firsts.items():
+            mode = ['check', 'sanity', 'its'] if (len(vname) + len(fname)) % 2 else ['check', 'all', 'its']
+            pk, page = [], 0
+            if pre is not None:
+                pk.append(G.Pkt(dict(orbit=5, page=page, trig=0x6a03), pre)); page += 1
+            junk = [G.dw(0x20, b'\x07' * 9)] + [G.ihw(7), G.tdh(trig=3, orbit=5)]
+            pk.append(G.Pkt(dict(orbit=5, page=page, trig=0x6a03), junk, raw_payload=b''.join(junk) + b'\xff' * R.choice([16, 22, 31])))
+            bad_off = sum(p.size() for p in pk[:-1]); page += 1
+            pk.append(G.Pkt(dict(orbit=5, page=page, trig=0x6a03), [fw, G.ihw(7), G.tdh(trig=3, orbit=5), G.dw(0x20, b'\x03' * 9), G.tdt(done=1)])); page += 1
+            pk.append(G.Pkt(dict(orbit=5, page=page, stop=1, trig=0x6a03), [G.ddw0()]))
+            data = G.encode(pk)
+            after = bad_off + pk[-3].size()
+            r = L.run_cli(mode, data)
+            ck.case(('cli_overpad_next', vname, fname)); ck.count('overpad_then_' + fname)
+            hit = [e for e in r.errors if e[0] == after + 64 and e[1] == 'E30']
+            pay = [e for e in r.errors if e[1] == 'PAYLOAD']
+            if pay != [(bad_off, 'PAYLOAD', None)] or not hit:
+                ck.violation('cli_overpad', {'what': 'over-padded payload followed by a packet whose first word is not an IHW: the protocol state must have been reset, so '
+                                                     'that first word is reported as an invalid IHW ([E30]) at its own offset',
+                                             'state_before': vname, 'first_word_of_next_packet': fname, 'expected_error_at': after + 64, 'input_hex': data.hex(),
+                                             'errors': r.errors, 'args': ' '.join(mode)})
+
+
 def run_c12(ck, ctx):
     R, tier = ctx['R'], ctx['tier']
     reqs, meta = [], []
@@ -204,6 +232,7 @@ def run_c12(ck, ctx):
                 ck.violation('cli_overpad', {'what': 'over-padded payload: expected exactly one payload error at its RDH offset and the following packets judged from the initial state (no word-level error in them)',
                                              'state_before': vname, 'input_hex': data.hex(), 'errors': errs, 'args': ' '.join(mode),
                                              'payload_errors': pay, 'errors_in_following_packets': late})
+    overpad_then_nonihw(ck, R, pre_variants)
     # view level: number of word rows equals the number of words
     pk, _ = G.conforming_stream(R, nlinks=2, df=None)
     data = G.encode(pk)
@@ -376,6 +405,10 @@ def run_c09(ck, ctx):
                                              'want': sorted(want), 'got': sorted(got), 'input_hex': data.hex(), 'args': ' '.join(mode)})
     run_c09_sequences(ck, ctx)
 
+
+    # after a padding error the machine restarts in the IHW state: a word that is not an IHW is never silently accepted there
+    overpad_then_nonihw(ck, R, {'in_data': [G.ihw(7), G.tdh(trig=3, orbit=5), G.dw(0x20, b'\x01' * 9), G.dw(0x21, b'\x02' * 9)],
+                                'after_tdh': [G.ihw(7), G.tdh(trig=3, orbit=5)], 'none': None})
 
 def diagram_first_illegal(words_per_packet):
     """independent reading of the documented diagram (continuous mode), used only up to the first illegal word of a link:
